@@ -197,13 +197,17 @@ func exhaustiveMalformed(c *Config, t0, n0 int) {
 
 type gen struct {
 	c      *Config
-	packed bool // ticks carry a packed author above bit 14
-	marks  bool // some operations are stamped with the merge mark
+	packed bool  // ticks carry a packed author above bit 14
+	marks  bool  // some operations are stamped with the merge mark
+	pool   []int // when set: most values are drawn from this pool (machine-limit values)
 }
 
 func (g *gen) tick(base int) int {
 	r := g.c.Rng
 	t := base
+	if g.pool != nil && r.Intn(4) != 0 {
+		return g.pool[r.Intn(len(g.pool))]
+	}
 	if g.packed && r.Intn(4) != 0 {
 		t = t&mark | (1+r.Intn(1000))<<14
 	}
@@ -519,6 +523,19 @@ func main() {
 	if c.Replay != "" {
 		for _, cs := range c.ReplayCases() {
 			var ops []op
+			if f, ok := cs.Field("script"); ok { // a scale case: light observations + checkpoints
+				for _, o := range f.Args() {
+					ops = append(ops, op{o.List[0].Int(), o.List[1].Int(), o.List[2].Int(), o.List[3].Int()})
+				}
+				geti := func(name string, def int) int {
+					if x, ok := cs.Field(name); ok && len(x.Args()) > 0 {
+						return x.Args()[0].Int()
+					}
+					return def
+				}
+				runScale(c, "replay-scale", geti("t0", 0), geti("n0", 0), ops, geti("every", 1000), geti("flat", 1) != 0, geti("model", 1) != 0)
+				continue
+			}
 			f, _ := cs.Field("ops")
 			for _, o := range f.Args() {
 				ops = append(ops, op{o.List[0].Int(), o.List[1].Int(), o.List[2].Int(), o.List[3].Int()})
@@ -557,4 +574,8 @@ func main() {
 	for i := c.Count(200, 1000); i > 0; i-- {
 		emptyBeyondCase(c)
 	}
+	for i := c.Count(1500, 20000); i > 0; i-- {
+		bigValueCase(c)
+	}
+	scaleFamily(c)
 }
